@@ -1,4 +1,5 @@
 import Verif.Props.C02
+import Verif.Props.C02Run
 import Verif.Facts.CpuCodeStep
 /-
   C02 for the code itself: the cycle count reported by the Lean translation of the Go handlers
@@ -16,5 +17,13 @@ theorem C02_code_step (model : CpuModel) (r : Regs) (opc : Byte) (i : Instr) (hd
 theorem C02_code_page_cross (model : CpuModel) (a b : Addr) :
     Gen.pageCrossCycles model a b = pure (Impl.pageCrossCycles a b) :=
   CpuCode.pageCrossCycles_code_C model a b
+
+/-- runs: the cycle counter after a run of the TRANSLATED code = the counter before + the data-sheet cycles of every
+    executed non-halting instruction (the total of the specification's own run), on every plain bus, from every
+    state, for every number of instructions, while the executed path is exactly specified -/
+theorem C02_code_total {σ : Type} (model : CpuModel) (bus : Bus σ) (hb : Verif.PlainBus bus) (n : Nat) (m : Machine σ)
+    (hx : Verif.Proofs.RunExact model bus n m.regs m.mem) :
+    (codeRunLoop model bus n m).2.cycles = (Verif.Proofs.specLoopC model bus n m.regs m.mem m.cycles).2.2.2 := by
+  rw [codeRunLoop_eq]; exact (C02_total model bus hb n m hx).1
 
 end Verif.Props.C02
